@@ -62,6 +62,10 @@ type Op struct {
 	// A (ex only): the Data named N, variant A (1|2), arrives while the Interest is being handed
 	// to the face -- a loopback / in-process peer that answers before Express has returned
 	A int `json:"a,omitempty"`
+	// F (ex only): MustBeFresh. Freshness is the business of caches on the way; a Data that
+	// arrives satisfies the Interest whether or not it carries a FreshnessPeriod (the Data of
+	// this harness carry none; seeded C20-r7-2 left such Interests pending)
+	F bool `json:"f,omitempty"`
 }
 
 type Case struct {
@@ -169,7 +173,11 @@ func interestName(name string, g int) enc.Name {
 }
 
 func makeInterest(name string, g int, cbp bool, lifeMs int, nonce uint64) *ndn.EncodedInterest {
-	cfg := &ndn.InterestConfig{CanBePrefix: cbp, Nonce: &nonce}
+	return makeInterestF(name, g, cbp, false, lifeMs, nonce)
+}
+
+func makeInterestF(name string, g int, cbp, mbf bool, lifeMs int, nonce uint64) *ndn.EncodedInterest {
+	cfg := &ndn.InterestConfig{CanBePrefix: cbp, MustBeFresh: mbf, Nonce: &nonce}
 	if lifeMs != 0 {
 		l := time.Duration(lifeMs) * time.Millisecond
 		cfg.Lifetime = &l
@@ -701,7 +709,10 @@ func (h *harness) step(step int, op Op, nInt *int) error {
 		if len(comps(op.N)) == 0 {
 			return nil
 		}
-		it := makeInterest(op.N, op.G, op.P, op.L, uint64(step+1))
+		it := makeInterestF(op.N, op.G, op.P, op.F, op.L, uint64(step+1))
+		if op.F {
+			h.cls["express-with-must-be-fresh"] = true
+		}
 		e := &exInt{id: len(h.ints), name: op.N, cbp: op.P, g: op.G, digest: digestFor(op.N, op.G),
 			at: clk.now(), life: life(op.L)}
 		h.mu.Lock()
@@ -1033,6 +1044,7 @@ func genCase(t *rapid.T) Case {
 				op.G = rapid.IntRange(1, 3).Draw(t, "digest")
 				op.P = true
 			}
+			op.F = rapid.IntRange(0, 4).Draw(t, "mustBeFresh") == 0
 			if rapid.IntRange(0, 11).Draw(t, "answeredAtOnce") == 0 {
 				op.A = rapid.SampledFrom([]int{1, 1, 2}).Draw(t, "answerVariant")
 			}
